@@ -19,6 +19,27 @@ def moves(empty):
                     out += [("copya %d %d" % (h, g), None, None), ("movea %d %d" % (h, g), None, g), ("add %d %d %d" % (h, g, h), None, None), ("cmp %d %d" % (h, g), None, None)]
     return out
 
+def moves_raw(empty):
+    """alphabet without arithmetic but with element writes of words ABOVE the modulus (a handle may hold any words)"""
+    out = []
+    for h in range(H):
+        if empty[h]:
+            out.append(("create %d %d" % (h, 3 + h), h, None))
+            for g in range(H):
+                if not empty[g] and g != h: out += [("copyc %d %d" % (h, g), h, None), ("movec %d %d" % (h, g), h, g)]
+        else:
+            out += [("write %d %d %d" % (h, h + 1, 4294967290 + h), None, None), ("write %d 0 %d" % (h, 1073479681 + h), None, None), ("read %d 0" % h, None, None), ("destroy %d" % h, None, h)]
+            for g in range(H):
+                if not empty[g] and g != h: out += [("copya %d %d" % (h, g), None, None), ("movea %d %d" % (h, g), None, g)]
+    return out
+
+def enum_raw(depth, empty, prefix, out, limit):
+    if len(out) >= limit: return
+    if prefix: out.append(";".join(prefix))
+    if depth == 0: return
+    for mv in moves_raw(empty):
+        enum_raw(depth - 1, apply(empty, mv), prefix + [mv[0]], out, limit)
+
 def apply(empty, mv):
     e = list(empty)
     if mv[1] is not None: e[mv[1]] = False
@@ -59,6 +80,9 @@ def run(ck):
     n1 = len(seqs)
     enum(3 if q else 4, (True, True, True), [], seqs, 400000)
     n2 = len(seqs) - n1
+    n3 = len(seqs)
+    enum_raw(3 if q else 4, (False, False, True), ["create 0 5", "write 0 3 4294967295", "copyc 1 0"], seqs, 600000)
+    n3 = len(seqs) - n3
     for _ in range(300 if q else 3000): seqs.append(rand_seq(ck.rng, 14 if q else 30))
     data = "\n".join(seqs) + "\n"
     rc, mout, merr = vf.run_io([model, "polyp"], data, timeout=1800)
@@ -90,7 +114,8 @@ def run(ck):
             elif ii != mm: corr.append((sq, ii, mm, ss))
     ck.stream("all sequences of length <= %d after a shared pair" % (2 if q else 3), n1)
     ck.stream("all sequences of length <= %d from the empty state" % (3 if q else 4), n2)
-    ck.stream("random long sequences", len(seqs) - n1 - n2)
+    ck.stream("all sequences of length <= %d over copies/moves/raw element writes of words >= p (non-canonical payloads)" % (3 if q else 4), n3)
+    ck.stream("random long sequences", len(seqs) - n1 - n2 - n3)
     ck.samples = seqs[:3] + seqs[n1:n1 + 2] + seqs[-3:]
     for sq, ii, mm, ss in fails[:3]:
         ck.violation("handle values differ from value semantics: sequence '%s' impl='%s' spec='%s'" % (sq, ii[-200:], ss[-200:]), {"sequence": sq, "impl": ii, "model": mm, "spec": ss}, tag="cow")
